@@ -9,6 +9,8 @@ def run(tier, seed, replay):
         PID, tier, seed, replay, "Bridge_Trace",
         COMMON + ["-n", "40", "-blocks", "30"],
         COMMON + ["-n", "300", "-blocks", "45"],
-        "Bridge.tla: Claimable (aggregate exists at the index, unflagged, id unclaimed, power >= threshold of the latest checkpoint strictly before the report, age >= 12 h, value decodes, valid recipient, tip <= amount), sequential batch semantics, minted = amount div 10^12, tip part to the claimer, rest to the recipient; withdrawals burn exactly the amount from the sender, ids increase by one, the published aggregate (no reporters) decodes to (recipient, sender, amount, 0); aggregates under withdrawal queries appear only through withdrawals; reports for withdrawal queries are rejected. Histories contain scripted bridge stories: operators with power 4000/2000/1000 around the 2/3 threshold reporting deposits (incl. malformed values, tip > amount, amounts < 10^12 and >= 2^62*10^12, bad recipients), claims at 12h-1ms / 12h / 13h, repeated and batched claims, disputes flagging the aggregate before the claim, withdrawals with recipients of any length.",
+        "BridgeSM.tla / BridgeSM_MC: the bridge as a constructive state machine (ClaimNext over a batch, WithdrawNext; aggregates appearing, flags, checkpoints, time), checked exhaustively within small bounds: a deposit id is minted at most once over all its aggregates, batches and batch positions, only from an unflagged aggregate >= 12 h old that met the threshold in force when it was reported (which later checkpoints never change), supply and balances = mints - burns, withdrawal ids 1..n published once each. Bridge.tla: Claimable (aggregate exists at the index, unflagged, id unclaimed, power >= threshold of the latest checkpoint strictly before the report, age >= 12 h, value decodes, valid recipient, tip <= amount), sequential batch semantics, minted = amount div 10^12, tip part to the claimer, rest to the recipient; withdrawals burn exactly the amount from the sender, ids increase by one, the published aggregate (no reporters) decodes to (recipient, sender, amount, 0); aggregates under withdrawal queries appear only through withdrawals; reports for withdrawal queries are rejected. Histories contain scripted bridge stories: operators with power 4000/2000/1000 around the 2/3 threshold reporting deposits (incl. malformed values, tip > amount, amounts < 10^12 and >= 2^62*10^12, bad recipients), claims at 12h-1ms / 12h / 13h, repeated and batched claims, disputes flagging the aggregate before the claim, withdrawals with recipients of any length.",
         ["deposit and withdrawal values are decoded by the harness with the Go ABI library (projection); byte-exact layouts are decided in C15",
-         "bridge deposit rounds are made short by a governance update of the trbbridge spec window, otherwise no deposit aggregates within a history"])
+         "bridge deposit rounds are made short by a governance update of the trbbridge spec window, otherwise no deposit aggregates within a history",
+         "design level (BridgeSM_MC): 10^12 is represented by 10, two deposit ids with up to two aggregates each, two checkpoints, times around the 12-hour boundary"],
+        mc=[("BridgeSM_MC", "BridgeSM_MC.cfg", "BridgeSM_MC_thorough.cfg", 8)])
